@@ -118,6 +118,10 @@ func genBinding(rng *hk.Rand, status int) *progSpec {
 			t.B.ReadErr = 800
 		}
 	}
+	if p.OnError && rng.Chance(30) {
+		p.HookMode = hk.Pick(rng, []string{"set", "clear", "panic"})
+		p.HookTag = 950
+	}
 	p.Attempts = []attemptSpec{{T: t}}
 	return p
 }
@@ -135,6 +139,9 @@ func genWrap(rng *hk.Rand, tg *tagger, failP int) wrapSpec {
 			w.Ret = hk.Pick(rng, []string{"err", "err", "nil", "drop", "droperr", "droperr"})
 			if w.Ret == "err" || w.Ret == "droperr" {
 				w.RetErr = tg.next()
+				if rng.Chance(8) {
+					w.RetErr = eCanceled // a wrapper reporting context.Canceled without the context being cancelled
+				}
 			}
 		}
 		return w
@@ -174,22 +181,29 @@ func genPipeline(rng *hk.Rand) *progSpec {
 	if rng.Chance(45) {
 		p.Retry = true
 		p.Max = hk.Pick(rng, []int{0, 1, 1, 2, 3, -1})
-		p.Conds = rng.Bool()
+		p.NConds = hk.Pick(rng, []int{0, 0, 1, 1, 2, 3})
+		p.NHooks = hk.Pick(rng, []int{0, 1, 1, 2, 3})
 		if p.Max < 0 {
-			p.Conds = true
+			if p.NConds == 0 {
+				p.NConds = 1
+			}
 			nAtt = 4
 		} else {
 			nAtt = p.Max + 1
 		}
+	}
+	if p.OnError {
+		p.HookMode = hk.Pick(rng, []string{"", "", "", "set", "clear", "panic"})
+		p.HookTag = 950
 	}
 	nUd, nW, nCli, nReq := rng.Intn(4), rng.Intn(4), rng.Intn(4), rng.Intn(4)
 	// failure regime: 0 none, 1 exactly one failing stage, 2 independent failures
 	regime := hk.Pick(rng, []int{0, 1, 1, 1, 2, 2})
 	failP := map[int]int{0: 0, 1: 0, 2: 14}[regime]
 	for a := 0; a < nAtt; a++ {
-		at := attemptSpec{Cond: rng.Chance(60)}
-		if a == nAtt-1 {
-			at.Cond = false
+		at := attemptSpec{}
+		for i := 0; i < p.NConds; i++ {
+			at.Conds = append(at.Conds, rng.Chance(45) && a != nAtt-1)
 		}
 		for i := 0; i < nUd; i++ {
 			u := 0
@@ -270,6 +284,17 @@ func genPipeline(rng *hk.Rand) *progSpec {
 	}
 	if regime == 2 && rng.Chance(4) {
 		p.ReqErr = 900
+	}
+	if rng.Chance(10) { // the request's context ends at one point of one attempt
+		at := &p.Attempts[rng.Intn(nAtt)]
+		switch rng.Intn(3) {
+		case 0:
+			at.Ctx = "transport"
+		case 1:
+			at.Ctx = "after"
+		case 2:
+			at.SleepCancel = true
+		}
 	}
 	if rng.Chance(20) {
 		p.UmCustom = true
@@ -386,7 +411,7 @@ func runProgram(r *hk.Run, p *progSpec, origin *realOrigin, part string) {
 	key, _ := json.Marshal(p)
 	coq := ""
 	if o.RtPanic == "" {
-		coq = fmt.Sprintf("ProgCase %s %s", p.coq(), o.coq())
+		coq = fmt.Sprintf("ProgCase %s %s", p.coq(o.CtxCutAt), o.coq())
 	}
 	r.Add(hk.Case{Coq: coq, Desc: map[string]interface{}{"kind": "program:" + part, "program": p, "observed": o}}, string(key), nontrivial)
 }
